@@ -135,6 +135,14 @@ func runC17(m *Sim) {
 			m.Probe("c17.srv.changed-ports")
 		case 2:
 			as = entry(subject, true)
+			// A ban names a key: it may leave the address out or name another
+			// one (a second ban of a banned server must then change nothing).
+			switch m.C.Weighted("srv-ban-form", 3, 1, 1) {
+			case 1:
+				as = SignServer(gca, server.AuthorizedServer{PublicKey: subject.Key.Pub, Banned: true})
+			case 2:
+				as = SignServer(gca, server.AuthorizedServer{PublicKey: subject.Key.Pub, Banned: true, Location: "elsewhere.sim", HttpPort: 2, TcpPort: 2, UdpPort: 2})
+			}
 			m.Probe("c17.srv.ban")
 		case 3: // un-ban attempt for whatever is banned
 			as = entry(subject, false)
